@@ -146,6 +146,9 @@ def run(chk):
     for unit, rex in (("asmjit/x86/x86assembler.cpp", r"x86::Assembler::_emit$"), ("asmjit/core/assembler.cpp", r"BaseAssembler::(embed_label|embed_label_delta)$")):
         em += cfg.load_functions(chk.facts(unit, funcs=rex))
     relocrules.target_pair(chk, em)
+    em2 = list(em)
+    em2 += cfg.load_functions(chk.facts("asmjit/arm/a64assembler.cpp", funcs=r"a64::Assembler::_emit$"))
+    relocrules.bound_unbound(chk, em2)
 
     return chk.finish(
         level="other",
